@@ -125,7 +125,7 @@ def rule_sorts(ctx):
     bw = [(loops, item) for conds, loops, item in p.out if item[0] == "write" and item[1].startswith("{}: ")]
     ok = bool(bw)
     for loops, item in bw:
-        ok = ok and leaves.over_all(loops, root, item[2]) == (("ctor", "Format", (("0", ("each", root)),)),)
+        ok = ok and leaves.over_all(loops, root, item[2]) == leaves.norm((("ctor", "Format", (("0", ("each", root)),)),))
     ctx.add("TAB-MAP", "binder-every-variable", ok, ctx.site(b),
             "the binder list is written by one loop over all of `variables` (no filter / dedup / skip: two variables of one name and different sorts are two binders): %s"
             % sorted({str(l)[:160] for l, _ in bw}))
